@@ -362,6 +362,68 @@ func findIndexSites(p *Prog, views map[*types.Named]*viewInfo) []indexSite {
 			return true
 		})
 	})
+	// a helper method that takes the field index as a parameter (checkpointAt(field)) addresses whatever its callers
+	// pass: each call with a constant index is a site of the CALLER; the parametric site itself is then resolved
+	for round := 0; round < 2; round++ {
+		var next []indexSite
+		changed := false
+		for _, st := range sites {
+			if st.isConst {
+				next = append(next, st)
+				continue
+			}
+			id, ok := ast.Unparen(st.idxE).(*ast.Ident)
+			if !ok {
+				next = append(next, st)
+				continue
+			}
+			info := st.pk.TypesInfo
+			pidx := paramIndex(st.method, info, info.Uses[id])
+			self, _ := info.Defs[st.method.Name].(*types.Func)
+			if pidx < 0 || self == nil {
+				next = append(next, st)
+				continue
+			}
+			resolved := 0
+			p.funcDecls(func(pk2 *packages.Package, fd2 *ast.FuncDecl) {
+				if pk2 != st.pk || fd2.Body == nil || fd2 == st.method {
+					return
+				}
+				ast.Inspect(fd2.Body, func(n ast.Node) bool {
+					call, ok := n.(*ast.CallExpr)
+					if !ok || pidx >= len(call.Args) {
+						return true
+					}
+					if f := calleeFunc(info, call); f == nil || f != self {
+						return true
+					}
+					a := call.Args[pidx]
+					cs := st
+					cs.method = fd2
+					cs.idxE = a
+					cs.node = call
+					cs.isConst = false
+					if tv, ok := info.Types[a]; ok && tv.Value != nil {
+						if v, ok := constant.Int64Val(constant.ToInt(tv.Value)); ok {
+							cs.idx, cs.isConst = v, true
+						}
+					}
+					next = append(next, cs)
+					resolved++
+					return true
+				})
+			})
+			if resolved == 0 {
+				next = append(next, st)
+			} else {
+				changed = true
+			}
+		}
+		sites = next
+		if !changed {
+			break
+		}
+	}
 	return sites
 }
 
